@@ -137,7 +137,7 @@ def exc_name(err):
 
 def run_case(ck, i, workload, cmp_keys, keyfn, nontrivial_fn, timeout=900):
     """one crash point: crash child, (optional second crash), resume child, compare.
-    keyfn(outcome, event, cfg) -> mechanism key"""
+    keyfn(outcome, event, cfg, reference_events) -> mechanism key"""
     from vf.runner import Skip
     e = ck.state["plan"][i]
     ref = ck.state["refs"][e["cfg"]]
@@ -157,7 +157,7 @@ def run_case(ck, i, workload, cmp_keys, keyfn, nontrivial_fn, timeout=900):
         if not D.died_by_kill(rc):
             if rc == 0:
                 raise Skip("crash point not reached (child finished)")
-            ck.violation(keyfn("run-raises:" + exc_name(err), e, ref["cfg"]),
+            ck.violation(keyfn("run-raises:" + exc_name(err), e, ref["cfg"], ref["events"]),
                          f"child failed before the crash point rc={rc}: {err[-300:]}", event=e)
             return
         ck.hit("crash_children_killed")
@@ -172,7 +172,7 @@ def run_case(ck, i, workload, cmp_keys, keyfn, nontrivial_fn, timeout=900):
             if D.died_by_kill(rc2):
                 ck.hit("second_crashes_killed")
             elif rc2 != 0:
-                ck.violation(keyfn("resume-raises:" + exc_name(err2), e, ref["cfg"]),
+                ck.violation(keyfn("resume-raises:" + exc_name(err2), e, ref["cfg"], ref["events"]),
                              f"resumed run (to be crashed again) failed: {err2[-300:]}", event=e, files_left=left)
                 return
         spec3 = dict(workload=workload, params=dict(ref["cfg"], resume=True), odir=odir, mode="plain")
@@ -182,14 +182,14 @@ def run_case(ck, i, workload, cmp_keys, keyfn, nontrivial_fn, timeout=900):
         ck.hit("resume_runs")
         if rc3 != 0 or res3 is None:
             last = err3.strip().splitlines()[-1][:200] if err3.strip() else str(rc3)
-            ck.violation(keyfn("resume-raises:" + exc_name(err3), e, ref["cfg"]),
+            ck.violation(keyfn("resume-raises:" + exc_name(err3), e, ref["cfg"], ref["events"]),
                          f"after a kill at event {e['idx']} ({e['kind']} {e['path']}, phase {e['phase']}) the "
                          f"run with resume=True fails: {last}", event=e, files_left=left, stderr=err3[-1200:])
             return
         ck.hit("digest_comparisons", len(cmp_keys))
         diff = [k for k in cmp_keys if res3["result"].get(k) != ref["result"].get(k)]
         if diff:
-            ck.violation(keyfn("resume-differs", e, ref["cfg"]),
+            ck.violation(keyfn("resume-differs", e, ref["cfg"], ref["events"]),
                          f"resumed run finished but {diff} differ from the uninterrupted run "
                          f"(kill at event {e['idx']}: {e['kind']} {e['path']}, {e['phase']})",
                          event=e, files_left=left, got={k: res3["result"].get(k) for k in diff},
